@@ -5,6 +5,8 @@
 (*     Call(fn, A, k) returned (cores, sizes) and what Call(fn, A, k, peel=True)*)
 (*     returned (pcores, psizes, orders, levels - flattened, nodes 1-based);    *)
 (*  fn in {kcoreness_centrality_bu, _bd}: Return(coreness, kn).                 *)
+(* A third kind: near-threshold inputs of score_wu (kind "wux": two-level      *)
+(* weights and bounds, see JudgeCoreX below).                                   *)
 (* Oracle: subset enumeration (KCore!CoreSet) for n <= 5; beyond that the       *)
 (* set-based peeling operator, proved equal to CoreSet by MC_KCore.             *)
 EXTENDS KCore, TraceBase
